@@ -232,7 +232,7 @@ PROPS = {
                    "documented errors) are applied to tables and the result is compared by table and canonical "
                    "EV+ diagram; EV* not covered."),
     "C10": dict(
-        gens=[("copy", gen.gen_C10, 0.8), ("copy-ev", gen.gen_C10_ev, 0.5), ("evstar", gen.gen_evstar, 0.3), ("from-index-set", gen.gen_C10_idx, 0.3)],
+        gens=[("copy", gen.gen_C10, 0.8), ("copy-ev", gen.gen_C10_ev, 0.5), ("evstar", gen.gen_evstar, 0.3), ("from-index-set", gen.gen_C10_idx, 0.3), ("evplus-to-boolean", gen.gen_C10_evbool, 0.3)],
         quick=60, thorough=600,
         level_text="Proved: copy is the pointwise scalar conversion and copy-there-and-back is the identity "
                    "when the conversion is invertible on the values taken (via canonicity). Tie: every ordered "
